@@ -150,11 +150,27 @@ fn main() {
             let mut texts: Vec<Option<String>> = vec![None];
             let mut tx = repo.start_transaction();
             let mut merges = 0;
+            // pool: an omitted parent p shared by two children inside the domain, plus a
+            // further in-domain ancestor q (p; q=child(p); c2=child(p); c1=merge(p,q);
+            // start=merge(c1,c2)), optionally extended by random commits
+            let shared_root_pool = rng.chance(1, 12);
+            let n_new = if shared_root_pool { n_new.max(5) } else { n_new };
+            const POOL_PARENTS: [&[usize]; 5] = [&[0], &[1], &[1], &[1, 2], &[4, 3]];
+            let pool_len = 4 + rng.usize(4);
+            let pool_lines: Vec<usize> = {
+                let mut v: Vec<usize> = (0..pool_len).collect();
+                rng.shuffle(&mut v);
+                v.truncate(3);
+                v
+            };
             for k in 1..=n_new {
                 let np = if k >= 3 && rng.chance(1, 4) { 2 } else { 1 };
                 let mut ps: Vec<usize> = vec![];
                 let mut tries = 0;
-                while ps.len() < np && tries < 20 {
+                if shared_root_pool && k <= 5 {
+                    ps = POOL_PARENTS[k - 1].to_vec();
+                }
+                while ps.len() < np && tries < 20 && !(shared_root_pool && k <= 5) {
                     tries += 1;
                     let p = if k == 1 {
                         0
@@ -171,7 +187,30 @@ fn main() {
                     merges += 1;
                 }
                 let base: Option<String> = texts[ps[0]].clone();
-                let text: Option<String> = if k == 1 {
+                let text: Option<String> = if shared_root_pool && k <= 5 {
+                    // p has >= 4 distinct lines; q, c2, c1 each rewrite a different line
+                    let base_lines: Vec<String> = (0..pool_len).map(|x| format!("l{x}")).collect();
+                    let mut lines = base_lines.clone();
+                    let touch = |lines: &mut Vec<String>, who: usize| {
+                        let at = pool_lines[who];
+                        lines[at] = format!("{}{}", ["q", "c2", "c1"][who], at);
+                    };
+                    match k {
+                        1 => {}
+                        2 => touch(&mut lines, 0),
+                        3 => touch(&mut lines, 1),
+                        4 => {
+                            touch(&mut lines, 0);
+                            touch(&mut lines, 2);
+                        }
+                        _ => {
+                            touch(&mut lines, 0);
+                            touch(&mut lines, 1);
+                            touch(&mut lines, 2);
+                        }
+                    }
+                    Some(lines_to_string(&lines, true))
+                } else if k == 1 {
                     let len = rng.range(2, 7) as usize;
                     let lines: Vec<String> = (0..len).map(|_| rng.pick(&POOL).to_string()).collect();
                     Some(lines_to_string(&lines, !rng.chance(1, 8)))
@@ -236,10 +275,17 @@ fn main() {
             let pos: HashMap<CommitId, usize> = ids.iter().enumerate().map(|(i, id)| (id.clone(), i)).collect();
             let text_of = |x: usize| -> Vec<u8> { texts[x].clone().unwrap_or_default().into_bytes() };
 
-            let start = if rng.chance(2, 3) { n - 1 - rng.usize(n.min(3)).min(n - 2) } else { 1 + rng.usize(n - 1) };
+            let start = if shared_root_pool && rng.chance(2, 3) {
+                5
+            } else if rng.chance(2, 3) {
+                n - 1 - rng.usize(n.min(3)).min(n - 2)
+            } else {
+                1 + rng.usize(n - 1)
+            };
             type R = ResolvedRevsetExpression;
             let commits_of = |xs: &[usize]| R::commits(xs.iter().map(|&x| ids[x].clone()).collect());
-            let (domain, dshape): (Arc<R>, &str) = match rng.below(10) {
+            let (domain, dshape): (Arc<R>, &str) = match if shared_root_pool && rng.chance(2, 3) { 99 } else { rng.below(10) } {
+                99 => (commits_of(&[1]).range(&commits_of(&[start])), "range"),
                 0..=3 => (R::all(), "all"),
                 4 => (commits_of(&[start]).ancestors(), "ancestors"),
                 5..=6 => {
@@ -350,6 +396,9 @@ fn main() {
                 merges.min(1),
                 if n_err > 0 { "unresolved" } else { "resolved" }
             );
+            if shared_root_pool {
+                ctx.count("(cases from the shared-omitted-parent pool)");
+            }
             if distinct_origins >= 3 {
                 ctx.count("(cases blaming >= 3 distinct commits)");
             }
